@@ -2,7 +2,7 @@
 //!
 
 use std::ops::Deref;
-use std::sync::{Arc, Condvar, Mutex};
+use std::sync::Arc;
 use std::time;
 use tokio::time::timeout;
 use triggered::Listener;
@@ -12,6 +12,7 @@ use lightning_block_sync::poll::{ChainTip, Poll, ValidatedBlockHeader};
 use lightning_block_sync::{BlockSourceErrorKind, Cache, SpvClient};
 
 use crate::dbm::DBM;
+use crate::vsync::{Condvar, Mutex};
 
 /// Component in charge of monitoring the chain for new blocks.
 ///
